@@ -183,6 +183,18 @@ def route_programs(seed, n, syms=gen.SYMS, shapes=("pair", "chain3", "triangle",
             finals.append(reg)
         for r in range(1, nroutes):
             steps.append(rel("same", "C04.route_independent", finals[0], finals[r]))
+        # conjugating the contracted network = contracting the conjugated tensors (along yet another route): the value must not
+        # depend on the stage at which the conjugate is taken either
+        if not closed and i % 2 == 0:
+            for k in range(len(net)):
+                steps.append({"op": "conj", "in": [f"t{k}"], "out": [f"tc{k}"], "args": {}})
+            b = Builder("qc_")
+            reg, legs = contract_route(rng, b, [(f"tc{k}", l) for k, (_, l) in enumerate(net)])
+            if legs:
+                reg, legs = canonical(b, reg, legs)
+            steps += b.steps
+            steps.append({"op": "conj", "in": [finals[0]], "out": ["fconj"], "args": {}})
+            steps.append(rel("same", "C04.conjugate_then_contract", "fconj", reg))
         progs.append({"tid": tids(), "inputs": inputs, "steps": steps})
     return progs
 
